@@ -124,6 +124,14 @@ impl PipeCase {
             })
             .collect()
     }
+    /// small limit when the pipeline contains oversized requests (they are sized relative to it), 64 KiB otherwise
+    pub fn item_limit(&self) -> u32 {
+        if self.items.iter().any(|i| matches!(i, PItem::Oversize { .. })) {
+            ITEM_LIMIT
+        } else {
+            65536
+        }
+    }
     pub fn quit_pos(&self) -> Option<usize> {
         self.items.iter().position(|i| matches!(i, PItem::Quit { .. }))
     }
@@ -135,7 +143,7 @@ pub const ITEM_LIMIT: u32 = 8192;
 pub const RULE: &str = "proptest pipelines of 1..30 requests (every implemented opcode loud and quiet over 4 keys, unimplemented known opcodes touch/gat/sasl, requests whose body exceeds the 8 KiB item limit, quit/quitq at any position; opaque = request index) are sent over one loopback connection to an in-process MemcacheTcpServer (current-thread or 2-worker runtime) as one segment, cut at every frame boundary, or at random cuts, with chunk boundaries enforced through the server-side receive queue. Oracle: responses carry strictly increasing request indices; a per-connection reference model decides for every request whether exactly one response / silence is due (loud: one; quiet mutation: only on error; quiet get: only on hit) and judges its content; after quit one response then EOF, after quitq EOF without response; nothing after either is answered or executed (store content read through an in-process side channel must equal the model's state at the quit). Completion is detected by a sentinel noop or EOF, never by a timeout. non-trivial = a quiet command that stays silent between two answered ones, or a quit that is not last";
 pub const ASSUME: &[&str] = &[
     "loopback TCP inside the harness process; chunk boundaries are enforced with FIONREAD on the accepted socket and TIOCOUTQ on the client socket",
-    "harness-side waits (10 s) only yield 'inconclusive', never a violation",
+    "harness-side waits (5 s) only yield 'inconclusive', never a violation",
 ];
 
 pub fn judge(case: &PipeCase, run: &NetRun, server: &crate::l3::Server, prop: &str) -> Option<(String, String)> {
@@ -149,9 +157,9 @@ pub fn judge(case: &PipeCase, run: &NetRun, server: &crate::l3::Server, prop: &s
     for r in &run.resps {
         let idx = r.opaque as i64;
         if idx <= last || idx as usize >= frames.len() {
-            if prop == "C12" {
+            if prop == "C12" || prop == "C11" {
                 return Some((
-                    "order".into(),
+                    if prop == "C11" { "uncorrelated_response".into() } else { "order".into() },
                     format!(
                         "responses are not in request order (or not matchable): opaque sequence {:?} for {} requests",
                         run.resps.iter().map(|r| r.opaque).collect::<Vec<_>>(),
@@ -164,7 +172,7 @@ pub fn judge(case: &PipeCase, run: &NetRun, server: &crate::l3::Server, prop: &s
         last = idx;
     }
     let by_idx = |i: usize| run.resps.iter().find(|r| r.opaque as usize == i);
-    let mut specs = SpecSet::new(ITEM_LIMIT);
+    let mut specs = SpecSet::new(case.item_limit());
     let upto = qpos.unwrap_or(frames.len());
     for i in 0..upto {
         let obs = by_idx(i);
@@ -266,7 +274,7 @@ pub fn run_case(case: &PipeCase, prop: &'static str) -> CaseReport {
         _ => case.cuts.iter().map(|c| (*c as usize * stream.len()) >> 16).collect(),
     };
     let chunks = netpipe::chunks_of(&stream, &cuts);
-    let opts = ServerOpts { workers: case.workers as usize, item_limit: ITEM_LIMIT, ..ServerOpts::default() };
+    let opts = ServerOpts { workers: case.workers as usize, item_limit: case.item_limit(), ..ServerOpts::default() };
     let server = match netpipe::start_server(opts) {
         Ok(s) => s,
         Err(e) => {
@@ -275,7 +283,7 @@ pub fn run_case(case: &PipeCase, prop: &'static str) -> CaseReport {
         }
     };
     let finish = if case.quit_pos().is_some() { Finish::Eof } else { Finish::Sentinel };
-    let run = match netpipe::run_connection(&server, &chunks, finish, Duration::from_secs(10)) {
+    let run = match netpipe::run_connection(&server, &chunks, finish, Duration::from_secs(5)) {
         Ok(r) => r,
         Err(e) => {
             rep.classes.push(format!("inconclusive:{}", e));
@@ -284,13 +292,26 @@ pub fn run_case(case: &PipeCase, prop: &'static str) -> CaseReport {
     };
     if run.timed_out {
         rep.classes.push("inconclusive:timeout".into());
+        if prop == "C11" {
+            // what did arrive must still be well-formed and correlated
+            if let Some((clause, msg)) = judge(case, &run, &server, prop) {
+                rep.fail = Some(FailInfo {
+                    clause: clause.clone(),
+                    msg,
+                    signature: clause,
+                    detail: json!({"stream_hex": wire::compact_hex(&stream), "cuts": cuts,
+                        "responses": run.resps.iter().take(40).map(|r| r.short()).collect::<Vec<_>>()}),
+                });
+            }
+            return rep;
+        }
         // a pipeline that is never answered completely: only a violation if re-confirmed
-        let run2 = netpipe::run_connection(&server, &chunks, finish, Duration::from_secs(10));
+        let run2 = netpipe::run_connection(&server, &chunks, finish, Duration::from_secs(5));
         if let Ok(r2) = run2 {
             if r2.timed_out && prop == "C12" {
                 rep.fail = Some(FailInfo {
                     clause: "never_answered".into(),
-                    msg: format!("the pipeline was not answered completely within 10 s, twice (got {} responses, eof={})", r2.resps.len(), r2.eof),
+                    msg: format!("the pipeline was not answered completely within 5 s, twice (got {} responses, eof={})", r2.resps.len(), r2.eof),
                     signature: "never_answered".into(),
                     detail: json!({"stream_hex": wire::compact_hex(&stream), "cuts": cuts}),
                 });
